@@ -176,7 +176,8 @@ F_min_z  == <<"Y", "m", "d", "H", "M", "z">>
 F_min_Z  == <<"Y", "m", "d", "H", "M", "Z">>
 F_date   == <<"Y", "m", "d">>
 
-\* the or_else chains.  dev_h41: the time backend as it is (one format) / as repaired (all forms).
+\* the or_else chains.  dev_h41 = FALSE: the time backend as it is since fix: 4d9b221 (the five forms of the jiff
+\* backend); TRUE: the repaired defect (one format: full seconds with a numeric offset).
 Attempts(b, dev_h41) ==
     IF b = "chrono" THEN <<F_full_z, F_min_z, F_date>>          \* chrono's %#z also takes "Z"
     ELSE IF b = "jiff" \/ ~dev_h41 THEN <<F_full_z, F_full_Z, F_min_z, F_min_Z, F_date>>
